@@ -30,4 +30,32 @@ META = {
           "every contiguous well-formed run in the injected stream, in particular the clean fragment after the damage, must be delivered. Both roles, both error modes, all 108 decode levels sampled."),
     note="Trusted: /verif reference framer/segmenter. Segment payloads are random tags (uniqueness probabilistic, >=6 bytes). The reference reassembler model is reported as evidence only, not as an oracle.",
  ),
+ "C12": dict(
+    engine="vh",
+    design_ref="5.12",
+    technique="runtime monitor: temporal/shape rules S1-S5 over the wire log of the real outstation session driven with generated requests in virtual time",
+    text=("Exploration. The real OutstationTask inside the real TCP ServerTask runs over PhysLayer::Verif with the production link/transport stack under a paused clock. "
+          "Requests of 8 generator classes (every function code 0..=255, header-flag combinations, unparsable objects, headers rejected for the function at first/middle/last position, no-reply functions, oversized control echoes) are injected in 4 session states; "
+          "every transmitted fragment is checked: S1 solicited = request sequence(+k), UNS clear, FIR first only; S2 unsolicited = UNS+FIR+FIN+CON, consecutive numbering (retries identical); S3 no reply to CONFIRM / no-ack functions; "
+          "S4 size <= configured transmit size and accepted by the reference object walker; S5 rejected request => exactly one response with an IIN2 error bit."),
+    note="Which object headers count as rejected is a conservative generator list (DESIGN 5.22). READs deferred by an unsolicited confirm wait are awaited for one confirm timeout. Trusted: reference walker/table.",
+ ),
+ "C04": dict(
+    engine="vh",
+    design_ref="5.4",
+    technique="runtime monitor: reference justification predicate over the history of received fragments vs control-handler callbacks (virtual time), plus systematic enumeration of short histories",
+    text=("Exploration with a small exhaustive part. Histories over a 12-symbol alphabet are sent to the real outstation session; for every OPERATE the harness-side reference decides 'justified' "
+          "(previous received fragment, exact repeats excepted, is a SELECT answered SUCCESS for byte-identical objects, sequence+1, within the select timeout measured from the first SELECT, same connection). "
+          "Unjustified: zero handler calls and no SUCCESS status (echoes of an earlier identical request excepted); justified with nothing in between: exactly one handler call per object. "
+          "All SELECT,x,OPERATE and SELECT,x,y,OPERATE histories are enumerated on every run; timeouts are probed at T-1/T/T+1 ms; both reconnect shapes (close, pre-empting connection)."),
+    note="Adjacency counts received application fragments (DESIGN 5.22). After a SELECT retransmission the library may conservatively reject; that is counted, not flagged.",
+ ),
+ "C05": dict(
+    engine="vh",
+    design_ref="5.5",
+    technique="runtime monitor: callback counters and byte-set membership of re-sent fragments over the session wire log (virtual time)",
+    text=("Exploration. (a) every non-READ function the outstation executes is sent and then repeated 1-3 times after nothing / a new event / a time advance, from idle, unsolicited-ready and unsolicited confirm wait: no side-effect callback may fire and the reply must be byte-identical to the first one (or absent if none was sent); "
+          "(b1) a READ is repeated while fragment k of its series awaits confirmation: every reply must be identical to a fragment already transmitted in the session; (b2) unsolicited retries (same sequence) must be identical to the outstanding response while events arrive and solicited traffic uses the other buffer."),
+    note="Only direct retransmissions are judged (same bytes, same sequence, nothing but updates/time in between).",
+ ),
 }
